@@ -9,6 +9,7 @@ package e2e
 // the secret — plus the literal substring check, plus "explicit conversion returns the secret" and "unmarshal stores it".
 
 import (
+	"context"
 	"encoding/json"
 	"errors"
 	"fmt"
@@ -312,8 +313,55 @@ func c14PositiveAll(sec string) map[string]string {
 			out[k] = fmt.Sprintf("unmarshalling into a %s stored %q instead of the secret %q", k, c14Trunc(v), c14Trunc(sec))
 		}
 	}
+	// the secret supplied by a configuration provider (the ${env:...} / ${file:...} way): as the whole value of the setting,
+	// embedded in a larger string, and as a map value
+	if !strings.ContainsAny(sec, "${}") && strings.TrimSpace(sec) != "" && !strings.Contains(sec, "\n") {
+		prov := confmap.NewProviderFactory(func(confmap.ProviderSettings) confmap.Provider { return c14Prov{sec} })
+		r, err := confmap.NewResolver(confmap.ResolverSettings{URIs: []string{"zz:root"}, ProviderFactories: []confmap.ProviderFactory{prov}})
+		if err != nil {
+			out["provider"] = "resolver: " + err.Error()
+			return out
+		}
+		conf, err := r.Resolve(context.Background())
+		if err != nil {
+			out["provider"] = "resolve: " + err.Error()
+			return out
+		}
+		var pt struct {
+			Whole    configopaque.String            `mapstructure:"whole"`
+			Embedded configopaque.String            `mapstructure:"embedded"`
+			M        map[string]configopaque.String `mapstructure:"m"`
+		}
+		if err := conf.Unmarshal(&pt); err != nil {
+			out["provider"] = "unmarshal of provider-supplied secrets failed: " + err.Error()
+			return out
+		}
+		if string(pt.Whole) != sec {
+			out["provider-whole-value"] = fmt.Sprintf("a secret supplied by a provider as the whole value was stored as %q instead of %q", c14Trunc(string(pt.Whole)), c14Trunc(sec))
+		}
+		if string(pt.Embedded) != "pre-"+sec+"-post" {
+			out["provider-embedded"] = fmt.Sprintf("a secret supplied by a provider inside a string was stored as %q instead of %q", c14Trunc(string(pt.Embedded)), c14Trunc("pre-"+sec+"-post"))
+		}
+		if string(pt.M["h"]) != sec {
+			out["provider-map-value"] = fmt.Sprintf("a secret supplied by a provider as a map value was stored as %q instead of %q", c14Trunc(string(pt.M["h"])), c14Trunc(sec))
+		}
+	}
 	return out
 }
+
+// c14Prov: "zz:root" is the configuration, "zz:secret" the secret's text exactly as an environment variable or file would
+// supply it (parsed as YAML by the provider helper, like envprovider and fileprovider do)
+type c14Prov struct{ sec string }
+
+func (p c14Prov) Retrieve(_ context.Context, uri string, _ confmap.WatcherFunc) (*confmap.Retrieved, error) {
+	if uri == "zz:root" {
+		return confmap.NewRetrieved(map[string]any{"whole": "${zz:secret}", "embedded": "pre-${zz:secret}-post", "m": map[string]any{"h": "${zz:secret}"}})
+	}
+	return confmap.NewRetrievedFromYAML([]byte(p.sec))
+}
+func (c14Prov) Scheme() string                   { return "zz" }
+func (c14Prov) Shutdown(context.Context) error   { return nil }
+
 
 func c14PathClass(k string) string {
 	p := strings.SplitN(k, ":", 3)
@@ -362,7 +410,9 @@ func TestVerif(t *testing.T) {
 		t.Skip("not driven")
 	}
 	defer ctx.Finish()
-	secrets := []string{"s3cr3t", "", "%s%d%v", "[REDACTED]", "RED", "pässwörd", strings.Repeat("k", 1024), "a\nb\"c"}
+	secrets := []string{"s3cr3t", "", "%s%d%v", "[REDACTED]", "RED", "pässwörd", strings.Repeat("k", 1024), "a\nb\"c",
+		// texts that YAML does not read as strings: a secret is whatever the user's secret is
+		"#S3cr3t!", "~", "null", "12345", "true", "0x1F", "1e3", "2021-01-01", "[a, b]", "a: b"}
 	quick := ctx.Quick()
 	base := c14Renderings("BASELINE-other-secret", quick)
 	check := func(sec, onlyPath string) {
